@@ -6,8 +6,10 @@ export CARGO_TARGET_DIR=$wt/target CARGO_NET_OFFLINE=true
 git checkout -q -- main generator derive/src 2>/dev/null
 demo=$(ls $wt/out/demo_${id}_${m}.rs)
 # where does the demo live?
-place=$(grep -l "" derive/tests/demo_${id}_${m}.rs main/tests/demo_${id}_${m}.rs generator/tests/demo_${id}_${m}.rs 2>/dev/null | head -1)
-if [ -z "$place" ]; then cp $demo derive/tests/; place=derive/tests/demo_${id}_${m}.rs; fi
+# the delivered copy in out/ is authoritative; it goes where its header says (default derive/tests)
+place=$(grep -oE "(derive|main|generator)/tests/demo_${id}_${m}\.rs" $demo | head -1)
+[ -z "$place" ] && place=derive/tests/demo_${id}_${m}.rs
+cp $demo $place
 pkg=pest_typed_derive; case $place in main/*) pkg=pest_typed;; generator/*) pkg=pest_typed_generator;; esac
 t=demo_${id}_${m}
 git apply out/$m.diff || { echo "APPLY-FAILED"; exit 2; }
